@@ -20,6 +20,39 @@ Theorem published_was_committed_first evs c k :
   exists ls, In (c, ls) (firstn k (w_lockhist (run evs init))).
 Proof. destruct (Inv_reachable sha evs) as (_ & _ & _ & P). apply P. Qed.
 
+(* C08: whatever happened to object storage, an instance that got through LoadLog (it is idle or in
+   a round) works on exactly a committed tree: its checkpoint value is its lock checkpoint, and
+   (checkpoint, leaf sequence) is an element of the lock history *)
+Theorem running_instance_holds_committed_tree evs i x :
+  get_inst (w_insts (run evs init)) i = Some x ->
+  (i_pc x = PIdle \/ exists ph, i_pc x = PRound ph) ->
+  In (i_tree x, i_leaves x) (w_lockhist (run evs init)) /\ i_tree x = i_lockcp x.
+Proof.
+  intros G Hpc. destruct (Inv_reachable sha evs) as (_ & _ & II & _).
+  specialize (II _ _ G). unfold Inv.inst_inv in II.
+  assert (L : Inv.loaded (w_lockhist (run evs init)) x).
+  { destruct Hpc as [Hpc|[ph Hpc]]; rewrite Hpc in II; [exact II|].
+    destruct ph; try exact II; destruct II as [L _]; exact L. }
+  destruct L as [Hin E]. rewrite E. split; [exact Hin|reflexivity].
+Qed.
+
+(* ...and the checkpoint it is about to sign and commit (phases staging upload / compare-and-swap)
+   commits to a leaf sequence that EXTENDS that tree, is well-formed (size, RFC 6962 root, leaf i
+   carries index i) and has a strictly later timestamp *)
+Theorem next_checkpoint_extends_committed_tree evs i x :
+  get_inst (w_insts (run evs init)) i = Some x ->
+  (i_pc x = PRound RStaging \/ i_pc x = PRound RCas) ->
+  prefix (i_leaves x) (r_all (i_rctx x)) /\
+  wfcp sha (r_new (i_rctx x)) (r_all (i_rctx x)) /\
+  (cp_ts (i_tree x) < cp_ts (r_new (i_rctx x)))%Z /\
+  In (i_tree x, i_leaves x) (w_lockhist (run evs init)).
+Proof.
+  intros G Hpc. destruct (Inv_reachable sha evs) as (_ & _ & II & _).
+  specialize (II _ _ G). unfold Inv.inst_inv in II.
+  destruct Hpc as [Hpc|Hpc]; rewrite Hpc in II; destruct II as [[Hin E] (P & W & T)];
+    rewrite <- E in Hin; (split; [exact P|split; [exact W|split; [exact T|exact Hin]]]).
+Qed.
+
 Theorem lock_history_nodup evs : NoDup (map fst (w_lockhist (run evs init))).
 Proof. apply (chain_nodup sha). apply (Inv_reachable sha evs). Qed.
 
